@@ -845,10 +845,12 @@ def run(ctx):
         'transitions': c['rows_compared'] + c['accounts_compared'] + c['transactions_balanced'] + c['reject_cases'],
         'traces_validated_against_impl': c['executed'] + c['reject_cases'],
         'evaluations': c['statements'],
-        'distinct_nontrivial': c['configs_with_originals'] + c['filters_that_cut'],
+        'distinct_nontrivial': c['configs_with_originals'] + c['filters_that_cut'] + c['subquery_cases_cutting_rows'],
         'rule': 'a case is one (ledger, OPEN date or absent, CLOSE date / dateless / absent, CLEAR, filter, statement kind) tuple, every '
                 'one distinct by construction; non-trivial = clause-only cases whose period contains at least one original transaction '
-                'plus filter cases where the filter keeps some but not all rows of the clause-only result (both counted)',
+                'plus filter cases where the filter keeps some but not all rows of the clause-only result (both counted); a sub-query case is one '
+                '(ledger, clause configuration, outer kind, sub-query FROM) tuple, non-trivial when the IN keeps some but not all rows of the '
+                'clause-only result (counted in in_subquery_cases_keeping_some_but_not_all_rows)',
         'exhaustive': True,
         'bound': f'{len(seqs)} ledgers (of {pool} non-empty candidate sequences, n <= 4; {unbookable} unbookable candidates skipped while choosing) x all clause configurations over every entry date, '
                  f'the day after, before and after the span ({ndates} dates per ledger) x {len(FILTERS)} filters x {len(KINDS)} kinds; plus all d > e; '
